@@ -21,7 +21,7 @@ func init() {
 		}
 	}
 	for _, a := range []string{"#", "-", "number", "@"} {
-		for _, b := range []string{"ident", "function", "url"} {
+		for _, b := range []string{"ident", "function", "url", "-->"} {
 			badPairs[[2]string{a, b}] = true
 		}
 	}
